@@ -94,8 +94,12 @@ def _make_factory(node, rec):
         return c
 
     def finish(c):
-        c["obj"] = Obj(name, len(rec.calls))
+        c["done"] = True
         c["vt1"] = vclock.vnow()
+        if node.get("none"):
+            # an optional integration that is not configured: the factory's (valid) product is None
+            return None
+        c["obj"] = Obj(name, len(rec.calls))
         rec.keep.append(c["obj"])
         return c["obj"]
 
